@@ -359,3 +359,69 @@ Section PDomain.
     intros Hwf H. pose proof (j2p_detailed_domain_sized (S (jsize j)) j (le_n _) Hwf) as D. now rewrite H in D.
   Qed.
 End PDomain.
+
+(* ===== BasicConversions: both directions are defined exactly on the schema's language; outside it the result is Err ===== *)
+Lemma ppairs_all_forallb fk fv l : ppairs_all fk fv l = forallb (fun kv => fk (fst kv) && fv (snd kv)) l.
+Proof. induction l as [|[k v] r IH]; cbn [ppairs_all forallb fst snd]; [reflexivity|]. now rewrite IH. Qed.
+
+Lemma p2j_basic_map l : p2j PBasic (PMap l) =
+  let* kvs := mapM (fun kv => match kv with (k, vs) =>
+                      let* ks := p_decode_key k in
+                      match vs with [v] => let* jv := p2j PBasic v in Ok (ks, jv) | _ => Err end end) l in
+  Ok (JObj (obj_of_list kvs)).
+Proof. reflexivity. Qed.
+Lemma p2j_basic_constr a fs : p2j PBasic (PConstr a fs) =
+  let* xs := mapM (p2j PBasic) fs in Ok (JObj [(k_constructor, JInt a); (k_fields, JArr xs)]).
+Proof. reflexivity. Qed.
+Lemma p2j_basic_list l : p2j PBasic (PList l) = let* xs := mapM (p2j PBasic) l in Ok (JArr xs).
+Proof. reflexivity. Qed.
+
+Theorem p2j_basic_domain p : res_dom (p2j PBasic p) (pbasic_dom p).
+Proof.
+  induction p as [a fs IH|l IH|l IH|z|b] using pd_ind'.
+  - rewrite p2j_basic_constr. cbn [pbasic_dom]. apply res_dom_bind. now apply res_dom_mapM.
+  - rewrite p2j_basic_map. cbn [pbasic_dom]. apply res_dom_bind. rewrite ppairs_all_forallb. apply res_dom_mapM.
+    eapply Forall_impl; [|exact IH]. intros [k vs] [_ Hvs]. cbn [fst snd] in *.
+    destruct k; cbn [p_decode_key pbasic_key_ok bind andb]; try reflexivity.
+    + destruct vs as [|v [|]]; try reflexivity. inversion Hvs; subst. now apply res_dom_bind.
+    + destruct (utf8_valid b); cbn [bind]; (destruct vs as [|v [|]]; try reflexivity; inversion Hvs; subst; now apply res_dom_bind).
+  - rewrite p2j_basic_list. cbn [pbasic_dom]. apply res_dom_bind. now apply res_dom_mapM.
+  - cbn. now eexists.
+  - cbn. now eexists.
+Qed.
+Theorem p2j_basic_out_of_schema_is_error p : pbasic_dom p = false -> p2j PBasic p = Err.
+Proof. intros H. pose proof (p2j_basic_domain p) as D. now rewrite H in D. Qed.
+Theorem p2j_basic_in_schema_converts p : pbasic_dom p = true -> exists j, p2j PBasic p = Ok j.
+Proof. intros H. pose proof (p2j_basic_domain p) as D. now rewrite H in D. Qed.
+
+Lemma j2p_basic_arr c l : j2p c PBasic (JArr l) = let* xs := mapM (j2p c PBasic) l in Ok (PList xs).
+Proof. reflexivity. Qed.
+Lemma j2p_basic_obj c l : j2p c PBasic (JObj l) =
+  let* kvs := mapM (fun kv => match kv with (rk, rv) =>
+                      let* k := p_encode_string rk PBasic true in let* v := j2p c PBasic rv in Ok (k, v) end) l in
+  Ok (PMap (pmap_of_list kvs)).
+Proof. reflexivity. Qed.
+Lemma p_encode_string_basic_dom s is_key : res_dom (p_encode_string s PBasic is_key) (pbasic_str_ok s).
+Proof.
+  unfold p_encode_string, pbasic_str_ok. destruct (starts_with k_0x s).
+  - destruct (unhex (skipn 2 s)); cbn; eauto.
+  - destruct is_key; [destruct (parse_bigint s)|]; cbn; eauto.
+Qed.
+
+Theorem j2p_basic_domain c j : res_dom (j2p c PBasic j) (pbasic_json_dom j).
+Proof.
+  induction j as [|b|z| |lit|s|l IH|l IH] using json_ind'; try reflexivity.
+  - cbn. now eexists.
+  - cbn. now eexists.
+  - cbn [pbasic_json_dom]. change (j2p c PBasic (JFloat lit)) with (p_encode_number (JFloat lit)). cbn [p_encode_number].
+    destruct (parse_bigint lit); cbn; eauto.
+  - apply p_encode_string_basic_dom.
+  - rewrite j2p_basic_arr. cbn [pbasic_json_dom]. apply res_dom_bind. now apply res_dom_mapM.
+  - rewrite j2p_basic_obj. cbn [pbasic_json_dom]. apply res_dom_bind. rewrite obj_all_forallb. apply res_dom_mapM.
+    eapply Forall_impl; [|exact IH]. intros [rk rv] Hv. cbn [fst snd] in *.
+    apply res_dom_pair; [apply p_encode_string_basic_dom|exact Hv].
+Qed.
+Theorem j2p_basic_out_of_schema_is_error c j : pbasic_json_dom j = false -> j2p c PBasic j = Err.
+Proof. intros H. pose proof (j2p_basic_domain c j) as D. now rewrite H in D. Qed.
+Theorem j2p_basic_in_schema_converts c j : pbasic_json_dom j = true -> exists p, j2p c PBasic j = Ok p.
+Proof. intros H. pose proof (j2p_basic_domain c j) as D. now rewrite H in D. Qed.
